@@ -53,11 +53,23 @@ def guard_list(fn, bb, n=6, w=160):
     return [[sx(c, w), t] for c, t in fn.bool_guards(bb)][:n]
 
 
-def discr_guarded(fn, bb, scrut_re, labels):
-    """`bb` is reachable only through edges `labels` (set of ints / 'otherwise') of a switch on discr(<scrut_re>)."""
-    labels = frozenset(labels)
+def discr_guarded(fn, bb, scrut_re, labels, universe=(0, 1)):
+    """`bb` is reachable only through edges for the variant values `labels` of a switch on discr(<scrut_re>).
+    The `otherwise` edge stands for the variants of `universe` (default: a two-variant Option/Result) that the switch
+    does not list explicitly, so `match x {Some(..) => A, _ => B}` and `match x {None => B, Some(..) => A}` are the same."""
+    labels = set(labels)
     for s, cond, allowed, all_labels in fn.guards(bb):
-        if cond.k == "discr" and re.search(scrut_re, str(cond.a[0])) and allowed <= labels:
+        if cond.k != "discr" or not re.search(scrut_re, str(cond.a[0])):
+            continue
+        explicit = {l for l in all_labels if isinstance(l, int)}
+        vals = {l for l in allowed if isinstance(l, int)}
+        if "otherwise" in allowed:
+            vals |= set(universe) - explicit
+        if "otherwise" in labels:
+            labels_ = labels | (set(universe) - explicit)
+        else:
+            labels_ = labels
+        if vals and vals <= labels_:
             return True
     return False
 
